@@ -8,12 +8,14 @@
 //!   uint k (v route param){k}            UBig      v, param: hex
 //!   int  k (v route param){k}            IBig
 //!   flt  base k (mode sig exp prec route param){k}
+//!        conversion routes `wb_S` (with_base), `wbp_S` (with_base_and_precision p), `tb_S` (to_binary), `td_S` (to_decimal):
+//!        the source `sig exp prec` is a float of base S (hex); every pair of CONV_PAIRS is instantiated
 //!   rbig k (num den route param){k}      RBig  (+ the pairs RBig x Relaxed for AbsOrd)
 //!   rlx  k (num den route param){k}      Relaxed
 #![allow(deprecated)]
 use core::cmp::Ordering;
 use core::hash::{Hash, Hasher};
-use dashu_base::{AbsEq, AbsOrd, BitTest, DivRem, Sign as BSign, Signed, UnsignedAbs};
+use dashu_base::{AbsEq, AbsOrd, BitTest, DivRem, Sign as BSign, Signed, SquareRoot, UnsignedAbs};
 use dashu_float::round::Round;
 use dashu_int::verif_hooks::{repr_layout_ibig, repr_layout_ubig};
 use hlib::*;
@@ -387,12 +389,84 @@ macro_rules! with_mode {
     };
 }
 
+
+/// FBig<R, A> is FBig<R, B> when A == B: the identity, found through `Any` (no unsafe code)
+fn cast<R: Round + 'static, const A: Word, const B: Word>(x: FBig<R, A>) -> FBig<R, B> {
+    assert!(A == B, "conversion target {} is not the base {} of the case", A, B);
+    let b: Box<dyn core::any::Any> = Box::new(x);
+    *b.downcast::<FBig<R, B>>().ok().expect("same type")
+}
+
+/// base conversions source base S -> base B through the four public routes.  Pairs: B a proper power of S
+/// (power-up), S a proper power of B (power-down: the significand is carried over, so one that is divisible by B but
+/// not by S must be re-normalised), same base, unrelated bases (multiplication / division / exp-ln routes).
+fn conv<R: Round + 'static, const B: Word>(api: &str, sb: Word, sig: &str, exp: &str, prec: usize, p: &str) -> FBig<R, B> {
+    macro_rules! arms {
+        ($(($s:literal, $t:literal))*) => {
+            match (sb, B) {
+                $(($s, $t) => {
+                    let x = FBig::<R, $s>::from_repr(repr_of::<$s>(sig, exp), Context::new(prec));
+                    match api {
+                        "wb" => cast::<R, $t, B>(x.with_base::<$t>().value()),
+                        "wbp" => cast::<R, $t, B>(x.with_base_and_precision::<$t>(usz(p)).value()),
+                        "tb" => cast::<R, 2, B>(x.to_binary().value().with_rounding::<R>()),
+                        "td" => cast::<R, 10, B>(x.to_decimal().value().with_rounding::<R>()),
+                        _ => panic!("unknown conversion api {}", api),
+                    }
+                })*
+                _ => panic!("base pair {} -> {} not instantiated", sb, B),
+            }
+        };
+    }
+    arms! { (2,2) (4,2) (8,2) (16,2) (32,2) (10,2) (3,2)
+            (3,3) (9,3) (27,3) (10,3) (2,3)
+            (10,10) (100,10) (1000,10) (2,10) (16,10) (3,10)
+            (16,16) (2,16) (4,16) (256,16) (8,16) (10,16) }
+}
+
+/// smallest prime factor
+fn spf(b: Word) -> Word {
+    let mut f = 2;
+    while b % f != 0 {
+        f += 1;
+    }
+    f
+}
+
+/// the digits of |sig| * B^k in radix B, sign in front, exponent after `@` (the one scale marker every base accepts)
+fn fstr<const B: Word>(sig: &str, exp: &str, k: usize) -> String {
+    let s = ibig(sig);
+    let neg = s.sign() == Sign::Negative;
+    let mut m = s.unsigned_abs() * UBig::from(B).pow(k);
+    let mut digits = Vec::new();
+    while !m.is_zero() {
+        let (q, r) = m.div_rem(UBig::from(B));
+        digits.push(core::char::from_digit(u32::try_from(&r).unwrap(), B as u32).unwrap());
+        m = q;
+    }
+    if digits.is_empty() {
+        digits.push('0');
+    }
+    let d: String = digits.iter().rev().collect();
+    format!("{}{}@{}", if neg { "-" } else { "" }, d, isz(exp) - k as isize)
+}
+
 fn fin<R: Round, const B: Word>(sig: &str, exp: &str, prec: usize) -> FBig<R, B> {
     FBig::from_repr(repr_of::<B>(sig, exp), Context::new(prec))
 }
 
 /// one float along a route; `sig exp prec` describe the source value (in base B unless the route says otherwise)
-fn route_f<R: Round, const B: Word>(sig: &str, exp: &str, prec: usize, route: &str, p: &str) -> FBig<R, B> {
+fn route_f<R: Round + 'static, const B: Word>(sig: &str, exp: &str, prec: usize, route: &str, p: &str) -> FBig<R, B> {
+    if let Some((api, sb)) = route.split_once('_') {
+        if matches!(api, "wb" | "wbp" | "tb" | "td") {
+            return conv::<R, B>(api, usz(sb) as Word, sig, exp, prec, p);
+        }
+    }
+    // working precision of the exact routes: the source value fits (prec = 0 is unlimited)
+    let pw = || (if prec == 0 { fin::<R, B>(sig, exp, 0).repr().digits() } else { prec }).max(1);
+    let pos = !sig.starts_with('-');
+    let unit = |e: isize| FBig::<R, B>::from_repr(Repr::new(if pos { IBig::ONE } else { -IBig::ONE }, e), Context::new(0));
+    let punit = |e: isize| FBig::<R, B>::from_repr(Repr::new(IBig::ONE, e), Context::new(0));
     match route {
         "repr" => fin::<R, B>(sig, exp, prec),
         "const_inf" => {
@@ -444,24 +518,108 @@ fn route_f<R: Round, const B: Word>(sig: &str, exp: &str, prec: usize, route: &s
             FBig::<R, B>::from(n)
         }
         "rounding" => fin::<mode::Zero, B>(sig, exp, prec).with_rounding::<R>(),
-        // ---- base conversions: the source is in another base
-        "from10" => FBig::<R, 10>::from_repr(repr_of::<10>(sig, exp), Context::new(prec)).with_base::<B>().value(),
-        "from10_p" => FBig::<R, 10>::from_repr(repr_of::<10>(sig, exp), Context::new(prec))
-            .with_base_and_precision::<B>(usz(p))
-            .value(),
-        "from2" => FBig::<R, 2>::from_repr(repr_of::<2>(sig, exp), Context::new(prec)).with_base::<B>().value(),
-        "from2_p" => FBig::<R, 2>::from_repr(repr_of::<2>(sig, exp), Context::new(prec))
-            .with_base_and_precision::<B>(usz(p))
-            .value(),
-        "from16_p" => FBig::<R, 16>::from_repr(repr_of::<16>(sig, exp), Context::new(prec))
-            .with_base_and_precision::<B>(usz(p))
-            .value(),
+        // ---- base conversions: the source is in another base (older names, kept for the corpus)
+        "from10" => conv::<R, B>("wb", 10, sig, exp, prec, p),
+        "from10_p" => conv::<R, B>("wbp", 10, sig, exp, prec, p),
+        "from2" => conv::<R, B>("wb", 2, sig, exp, prec, p),
+        "from2_p" => conv::<R, B>("wbp", 2, sig, exp, prec, p),
+        "from16_p" => conv::<R, B>("wbp", 16, sig, exp, prec, p),
+        // ---- producers whose intermediate result carries trailing base-B digits and must be re-normalised
+        // product with the two cofactors of the base one after the other (10 = 2*5, 16 = 2*8): sig * B
+        "mulfac" => {
+            let f = spf(B);
+            let c0 = Context::<R>::new(0);
+            let t = c0.mul(fin::<R, B>(sig, exp, 0).repr(), &Repr::new(IBig::from(f), 0)).value();
+            let t = c0.mul(t.repr(), &Repr::new(IBig::from(B / f), -1)).value();
+            t.with_precision(prec).value()
+        }
+        // exact product, then a division that comes out even: the quotient is computed with precision + guard digits
+        "muldivx" => {
+            let y = Repr::<B>::new(ibig(p), 0);
+            let t = Context::<R>::new(0).mul(fin::<R, B>(sig, exp, 0).repr(), &y).value();
+            Context::<R>::new(pw() + 1).div(t.repr(), &y).value().with_precision(prec).value()
+        }
+        "divself" => {
+            // the quotient x / x is one (computed with precision + guard digits, all of them zero), times x
+            let x = fin::<R, B>(sig, exp, pw());
+            let q = &x / &x; // exactly one
+            assert!(*q.repr() == Repr::<B>::one(), "x / x is not one");
+            (q * x).with_precision(prec).value()
+        }
+        // exact square, exact root
+        "sqrsqrt" => {
+            let t = Context::<R>::new(0).sqr(fin::<R, B>(sig, exp, 0).repr()).value();
+            let r = Context::<R>::new(pw() + 1).sqrt(t.repr()).value();
+            let r = if pos { r } else { -r };
+            r.with_precision(prec).value()
+        }
+        "powi1" => Context::<R>::new(prec).powi(fin::<R, B>(sig, exp, prec).repr(), IBig::ONE).value(),
+        // ---- rounding to an integer of (x + a fraction); generator: exponent >= 0
+        "addtrunc" => (fin::<R, B>(sig, exp, 0) + unit(-1)).trunc().with_precision(prec).value(),
+        "addfloor" => (fin::<R, B>(sig, exp, 0) + punit(-1)).floor().with_precision(prec).value(),
+        "subceil" => (fin::<R, B>(sig, exp, 0) - punit(-1)).ceil().with_precision(prec).value(),
+        "addround" => (fin::<R, B>(sig, exp, 0) + unit(-2)).round().with_precision(prec).value(),
+        "splitpoint" => (fin::<R, B>(sig, exp, 0) + unit(-3)).split_at_point().0.with_precision(prec).value(),
+        // the other half: the fraction of (B^(exp+digits) + x), generator: exponent < 0 and |x| < 1
+        "addfract" => {
+            let n = unit(isz(p));
+            (fin::<R, B>(sig, exp, 0) + n).fract().with_precision(prec).value()
+        }
+        // ---- other sources of floats
+        "fromstr" => {
+            let x: FBig<R, B> = fstr::<B>(sig, exp, usz(p)).parse().unwrap();
+            x.with_precision(prec).value()
+        }
+        "fromf64" => {
+            // generator: base 2, |sig| < 2^53, exponent within the normal range
+            let v = (i64::try_from(&ibig(sig)).unwrap() as f64) * 2f64.powi(isz(exp) as i32);
+            cast::<R, 2, B>(FBig::<R, 2>::try_from(v).unwrap())
+        }
+        "fromf32" => {
+            let v = (i32::try_from(&ibig(sig)).unwrap() as f32) * 2f32.powi(isz(exp) as i32);
+            cast::<R, 2, B>(FBig::<R, 2>::try_from(v).unwrap())
+        }
+        "ratfloat" => {
+            let e = isz(exp);
+            let q = if e >= 0 {
+                RBig::from_parts(ibig(sig) * IBig::from(B).pow(e as usize), UBig::ONE)
+            } else {
+                RBig::from_parts(ibig(sig), UBig::from(B).pow((-e) as usize))
+            };
+            q.to_float::<R, B>(pw()).value().with_precision(prec).value()
+        }
+        "fromubig" => {
+            // generator: sig > 0, exponent >= 0
+            let n = ubig(sig) * UBig::from(B).pow(isz(exp) as usize);
+            FBig::<R, B>::from(n)
+        }
+        "fromu64" => FBig::<R, B>::from(u64::try_from(&(ubig(sig) * UBig::from(B).pow(isz(exp) as usize))).unwrap()),
+        "fromi64" => FBig::<R, B>::from(i64::try_from(&(ibig(sig) * IBig::from(B).pow(isz(exp) as usize))).unwrap()),
+        // ---- results that are really rounded (value not predicted: invariants and comparisons only);
+        // `p` is a second significand one digit position below
+        "r_add" => fin::<R, B>(sig, exp, pw()) + fin::<R, B>(p, &hisz(isz(exp) - 1), 0),
+        "r_sub" => fin::<R, B>(sig, exp, pw()) - fin::<R, B>(p, &hisz(isz(exp) + 1), 0),
+        "r_mul" => fin::<R, B>(sig, exp, pw()) * fin::<R, B>(p, "0", 0),
+        "r_div" => fin::<R, B>(sig, exp, pw()) / fin::<R, B>(p, "0", 0),
+        "r_sqr" => fin::<R, B>(sig, exp, pw()).sqr(),
+        "r_sqrt" => {
+            let x = fin::<R, B>(sig, exp, pw());
+            (if pos { x } else { -x }).sqrt()
+        }
+        "r_powi" => fin::<R, B>(sig, "0", pw()).powi(ibig(p)),
+        "r_inv" => Context::<R>::new(pw()).inv(fin::<R, B>(sig, exp, 0).repr()).value(),
+        // argument of magnitude below 1 whatever the exponent of the case
+        "r_exp" => FBig::<R, B>::from_repr(Repr::new(ibig(sig), -(usz(p) as isize)), Context::new(pw())).exp(),
+        "r_ln1p" => {
+            let x = FBig::<R, B>::from_repr(Repr::new(ibig(sig), -(usz(p) as isize)), Context::new(pw()));
+            (if pos { x } else { -x }).ln_1p()
+        }
         "same_p" => fin::<R, B>(sig, exp, prec).with_base_and_precision::<B>(usz(p)).value(),
         _ => panic!("unknown route {}", route),
     }
 }
 
-fn pair_f<R1: Round, R2: Round, const B: Word>(a: &FBig<R1, B>, b: &FBig<R2, B>) -> String {
+fn pair_f<R1: Round + 'static, R2: Round + 'static, const B: Word>(a: &FBig<R1, B>, b: &FBig<R2, B>) -> String {
     let mut s = String::new();
     s.push(bc(a == b));
     s.push(bc(a != b));
